@@ -189,6 +189,10 @@ func (c *Ctx) Finish(verifDir, tier string, seed int64, wall float64, explanatio
 		clauses[o.Rule][o.Clause] = true
 		rs.Obligations++
 		distinct[o.Rule+"|"+o.Func+"|"+o.Clause] = true
+		if os.Getenv("OBSA_LIST") != "" {
+			// debugging aid: print every obligation
+			fmt.Printf("OBL %s %s %s %s [%s] %s :: %s\n", o.Status, o.Rule, o.Clause, o.Func, o.Site, o.Pos, o.Fact)
+		}
 		switch o.Status {
 		case Discharged:
 			rs.Discharged++
